@@ -29,7 +29,8 @@ HARNESSES = {
     'C20': [dict(name='c20_repro', src=['C20_repro.cpp'], flavour='asan')],
     'C04': [dict(name='c04_costs', src=['C04_costs.cpp'], flavour='asan')],
     'C03': [dict(name='c03_interrupt', src=['C03_interrupt.cpp'], flavour='asan', ldflags=['-rdynamic']),
-            dict(name='c03_threads', src=['C19_threads.cpp'], flavour='tsi', cflags=['-DSCEN_C03'], ldflags=['-rdynamic'])],
+            dict(name='c03_threads', src=['C19_threads.cpp'], flavour='tsi', cflags=['-DSCEN_C03'], ldflags=['-rdynamic']),
+            dict(name='c03_control', src=['C03_control.cpp'], flavour='asan', ldflags=['-rdynamic'])],
     'C01': [dict(name='c01_geometric', src=['C01_geometric.cpp'], flavour='asan')],
     'C09': [dict(name='c09_copy', src=['C09_copy.cpp'], flavour='asan')],
     'C08': [dict(name='c08_bounds', src=['C08_bounds.cpp'], flavour='asan')],
